@@ -609,9 +609,45 @@ pub fn run_c03(o: &Opts) {
 /// on pairs of nodes of one document: same kind, preferring pairs whose child-kind sequences are equal or
 /// one a strict prefix of the other (the near misses of a structural comparison), plus named leaves
 /// against inner nodes with the same text.
+/// the same `$$$NAME` twice in one pattern: both occurrences must capture structurally identical lists — also when
+/// the occurrence tried first captures the EMPTY list (an existing empty binding is a binding)
+fn repeated_multi(out: &mut Out) {
+  // (code, must the pattern match?)
+  let calls: &[(&str, bool)] = &[
+    ("[f(), g()]", true), ("[f(1), g(1)]", true), ("[f(1, 2), g(1, 2)]", true), ("[f(), g(1)]", false), ("[f(1), g()]", false),
+    ("[f(1), g(2)]", false), ("[f(1, 2), g(1)]", false), ("[f(), g(1, 2)]", false), ("[f(a), g(a)]", true), ("[f(a), g(b)]", false),
+  ];
+  for lang in [SupportLang::JavaScript, SupportLang::TypeScript, SupportLang::Tsx, SupportLang::Python, SupportLang::Ruby, SupportLang::Swift, SupportLang::Kotlin] {
+    let Ok(Ok(p0)) = catch_unwind(AssertUnwindSafe(|| Pattern::try_new("[f($$$A), g($$$A)]", lang))) else { continue };
+    for (code, want) in calls {
+      let sg = corpus::parse(lang, code);
+      if corpus::has_error(&sg.root()) {
+        continue;
+      }
+      let Some(t) = sg.root().dfs().find(|n| n.text() == *code && n.children().count() >= 3) else { continue };
+      for si in 0..5 {
+        let p = p0.clone().with_strictness(strict_of(si));
+        let what = format!("c04x-multi lang={lang} strictness={} pattern=\"[f($$$A), g($$$A)]\" code={code:?}", STRICT_NAMES[si]);
+        let (matched, _) = tie_match(out, &p, &t, &what);
+        out.checked();
+        out.count("repeated-multi-variable");
+        if matched {
+          out.nontrivial(&(lang.to_string(), code.to_string(), si));
+        }
+        if matched != *want {
+          out.oracle_fail("", &format!("{lang} [{}]: pattern `[f($$$A), g($$$A)]` on `{code}` {} but the two occurrences of $$$A {}", STRICT_NAMES[si],
+            if matched { "matches" } else { "does not match" }, if *want { "capture identical lists" } else { "would have to capture different lists" }),
+            json!({"stream": "c04x-multi", "lang": lang.to_string(), "code": code, "strictness": STRICT_NAMES[si]}));
+        }
+      }
+    }
+  }
+}
+
 pub fn run_c04x(o: &Opts) {
   use ast_grep_core::meta_var::MetaVarEnv;
   let mut out = Out::new(&o.out);
+  repeated_multi(&mut out);
   let mut rng = Rng::new(o.seed ^ 0xc04e);
   let nsrc = if o.thorough { 8 } else { 3 };
   let mut sampled = false;
